@@ -9,6 +9,8 @@ use syn::visit::Visit;
 mod t5_impl; // T5 (C12): HashMap/HashSet sites and their consumers -> Generated/HashSites.lean
 #[path = "../extract_t2.rs"]
 mod extract_t2; // T2 (C10/C11/C17): string formats of convert_string -> Generated/StringFormats.lean
+#[path = "../extract_t5b.rs"]
+mod extract_t5b; // T5b (C12): interior mutability / global state / unsafe -> Generated/Interior.lean
 #[path = "../extract_t3.rs"]
 mod extract_t3; // T3 (C19/C17): derive sets -> Generated/Derives.lean
 #[path = "../extract_t7.rs"]
@@ -184,6 +186,7 @@ fn main() {
         std::fs::write(&path, out).unwrap();
     }
     extract_t2::t2_string_formats(repo, outdir);
+    extract_t5b::t5b_interior(repo, outdir);
     extract_t3::t3_derives(repo, outdir);
     extract_t7::t7_frontends(repo, outdir);
     extract_t9::t9_panic_sites(repo, outdir);
